@@ -15,7 +15,8 @@
    blocks use Gen/Widths.v (all 1,112,064 scalar values per coding, regenerated
    from the running code). *)
 From V Require Import Model.Base Model.Gsm7 Model.Splitter Model.Compose Gen.Widths
-  Proofs.Gsm7Proofs Proofs.SplitterProofs Proofs.ComposeProofs Proofs.ComposeInst.
+  Model.IntervalMap Gen.Charsets Model.Charset Model.ComposeText
+  Proofs.Gsm7Proofs Proofs.SplitterProofs Proofs.ComposeProofs Proofs.ComposeInst Proofs.CharsetRoundtrip Proofs.ComposeText.
 Open Scope nat_scope.
 Local Notation length := List.length.
 Local Notation concat := List.concat.
@@ -127,6 +128,24 @@ Proof. exact compose_gsm7_lossless. Qed.
 Theorem C07_gsm7_total : forall ref t, compose_gsm7 ref t <> Panic /\ compose_gsm7 ref t <> Err EFuel.
 Proof. exact compose_gsm7_no_panic. Qed.
 
+(* ---- the nine table codings at PAYLOAD level: compose_cs c = ComposeMultipartShortMessage with the encoder of
+        Model/Charset.v (the per-character tables of Gen/Charsets.v, every scalar value, regenerated from the running
+        code); the generated cases compare header entries and payload OCTETS of every part.
+        Reassembly: decoding the payloads with the same coding and joining them in order reproduces the text - the
+        parts are the encodings of consecutive non-empty pieces of the text, so no character is dropped, duplicated
+        or cut inside a multi-octet, surrogate-pair or escape sequence.  Scope (cs_scope): ISO-2022-JP texts free of
+        ESC (reserved by RFC 1468, as in C17), UCS-2 texts of scalar values. ---- *)
+Theorem C07_cs_lossless : forall c ref t parts, cs_scope c t -> compose_cs c ref t = Ok parts ->
+  exists segs, concat segs = t /\ Forall2 (fun pt s => decode c (pt_payload pt) = Ok s) parts segs /\
+    (length segs = 1 \/ Forall (fun s => s <> []) segs).
+Proof. exact compose_cs_lossless. Qed.
+Theorem C07_cs_reassembles : forall c ref t parts, cs_scope c t -> compose_cs c ref t = Ok parts ->
+  decode_parts c parts = Ok t.
+Proof. exact compose_cs_reassembles. Qed.
+(* no panic and no divergence for any of the nine codings, any reference, any text *)
+Theorem C07_cs_total : forall c ref t, compose_cs c ref t <> Panic /\ compose_cs c ref t <> Err EFuel.
+Proof. exact compose_cs_total. Qed.
+
 (* ---- non-vacuity -------------------------------------------------------------- *)
 (* 200 x 'a', reference 255 (the D11 case): 8-bit element, first part full with 153 septets = 134 octets *)
 Example C07_example_gsm7 :
@@ -142,3 +161,8 @@ Proof. vm_compute. reflexivity. Qed.
 Example C07_example_iso2022jp_refused :
   compose_len w_multibyte (enc_len_2022 wd_iso2022jp JAscii) 1 (List.concat (repeat [0x3042; 97]%N 60)) = Err ESize.
 Proof. exact iso2022jp_size_check_fires. Qed.
+(* Shift-JIS, 70 kanji + 'a' + 70 kanji, reference 255: three parts; decoding the payloads and joining gives the text back *)
+Example C07_example_cs_roundtrip :
+  let t := (rep 70 26085 ++ [97] ++ rep 70 26412)%N in
+  match compose_cs CSjis 255 t with Ok l => decode_parts CSjis l = Ok t /\ length l = 3 | _ => False end.
+Proof. vm_compute. split; reflexivity. Qed.
